@@ -98,8 +98,8 @@ func (b *BFS[S]) Run(inits []S) {
 						if i >= len(cur) || b.Stop {
 							return
 						}
-						if !b.Deadline.IsZero() && time.Now().After(b.Deadline) {
-							capped.Store("deadline")
+						if why := Expired(b.Deadline); why != "" {
+							capped.Store(why)
 							return
 						}
 						expand(cur[i])
@@ -122,8 +122,8 @@ func (b *BFS[S]) Run(inits []S) {
 			if b.Stop {
 				return
 			}
-			if !b.Deadline.IsZero() && time.Now().After(b.Deadline) {
-				b.Capped = "deadline"
+			if why := Expired(b.Deadline); why != "" {
+				b.Capped = why
 				return
 			}
 			if b.MaxStates > 0 && b.States >= b.MaxStates {
